@@ -3,7 +3,7 @@ import re
 CONFIG = dict(
     bin="c17",
     drv="drv_c17",
-    lean_modules=["MahfModel.Props.C17", "MahfModel.Props.C17Real"],
+    lean_modules=["MahfModel.Props.C17", "MahfModel.Props.C17Cool", "MahfModel.Props.C17Real"],
     namespaces=["MahfModel.Props.C17"],
     shrink_lists=["steps"],
     shrink=False,
@@ -11,23 +11,33 @@ CONFIG = dict(
     rule=("(1) accept-*: the real ExponentialAnnealingAcceptance on prepared two-population frames: objective pairs "
           "(5 base values x {equal, better, worse by 1e-9..1e9}) x temperatures 1e-12..1e12 (plus T = delta*{0.25..20} so that "
           "p is mid-range), each with scripted generator words giving the draws k-1, k, k+1 around the threshold "
-          "k = ceil(p*2^53), 0, 1-2^-53 and a random one (low 11 word bits random: they must be discarded); "
+          "k = ceil(p*2^53), 0, 1-2^-53 and a random one (low 11 word bits random: they must be discarded), plus T = delta/{700, 740, 745, 746} "
+          "(p = 1e-304 .. 5e-324 .. 0: the draw u = 0 separates 0 < p from p = 0); "
           "(2) accept-frame: deeper stacks, empty / surplus individuals, fewer than two populations; "
           "(3) freq-*: n = 2000 (quick) / 20000 (thorough) executions per (cur, cand, T) cell on a seeded ChaCha stream "
           "(frequency vs exp(-delta/T), tolerance 5 sigma + 1e-3) and on a SplitMix stream the model replays exactly "
-          "(accepted count must equal the model's); (4) cool: GeometricCooling executed n times on a Temperature, grid + "
-          "random (t, alpha), constructor range check; (5) run: real_sa / permutation_sa template runs under the step "
+          "(accepted count must equal the model's), half of the cells on a state that also holds an unchanged Iterations counter; (4) cool: GeometricCooling executed n times on a Temperature, grid + "
+          "random (t, alpha), constructor range check; (4b) cool-prog-*: programs built from the REAL GeometricCooling (one instance per node, lens = "
+          "ValueOf<Temperature> or one of two further f64 states), Block, Loop + LessThanN::iterations and Scope, executed on prepared states "
+          "with / without an Iterations counter: k executions in a row while the counter is unchanged (k = 1..5, T from 5e-324 to inf, 0, negative), "
+          "the counter re-inserted between executions, loops of 0..6 passes whose body holds 1..5 cooling components on 1..3 lenses, a loop run "
+          "again / continued / reset, scoped nested loops to depth 3 and unscoped nested loops, absent lens target (Err at the first / a later "
+          "execution, inside loop and scope), loop without a counter, 250 (quick) / 3000 (thorough) random programs; a recorder component "
+          "directly behind every cooling component logs the value it left, so the oracle judges EVERY execution (value = previous * its own "
+          "alpha, nobody else touched a cell) and the model must reproduce status, final cells, final counter and the whole log bit for bit; (5) run: real_sa / permutation_sa template runs under the step "
           "observer: every acceptance (frame, not-worse => accepted) and every cooling (T' = alpha*T, nobody else "
           "touches T, once per pass), with the state's generator swapped for a SplitMix-backed scripted one before the first draw so "
           "that EVERY acceptance of the run is re-emitted as a prepared accept case with the exact word it consumed "
           "(run-accept: exact decision); (6) accept-equal-inf / accept-inf: +inf objective values. Non-trivial = not a frame-error case and not a better-candidate case; distinct = "
           "distinct input line."),
-    nontrivial=lambda inp: (inp.startswith("(accept") and "(stack ((2" in inp) or inp.startswith("(freq") or inp.startswith("(cool") or inp.startswith("(run"),
+    nontrivial=lambda inp: (inp.startswith("(accept") and "(stack ((2" in inp) or inp.startswith("(freq") or inp.startswith("(cool") or inp.startswith("(coolprog") or inp.startswith("(run"),
     trusted_base=[
         "Lean's Float.exp and Rust's f64::exp both call the platform libm (decisions are compared allowing one ulp of exp; "
         "on this platform they agree bit for bit on every generated case)",
         "rand 0.8.8: gen::<f64>() = (next_u64() >> 11) * 2^-53 (read off the vendored source; re-checked by the scripted-word cases)",
-        "the population stack is represented head = top; individuals are (tag, objective) pairs"],
+        "the population stack is represented head = top; individuals are (tag, objective) pairs",
+        "cool-prog: the recorder component the harness places behind every cooling component reads the cell faithfully; "
+        "Loop / Scope / LessThanN / State registry are the real ones (their own semantics are C03 / C10 / C01 territory)"],
     assumptions=["SplitMix64-seeded generator; theorems are in exact (ordered-field) arithmetic with an abstract exp "
                  "(ExpSpec: exp 0 = 1, exp(x+y) = exp x * exp y, 1 + x <= exp x; satisfied by Real.exp)"],
     timeout_quick=600,
@@ -36,13 +46,26 @@ CONFIG.update(
     level_text=("Lean 4 theorems over an arbitrary ordered field with abstract exp: a candidate at least as good is always "
                 "accepted without a draw; a worse one iff u < exp(-(f(cand)-f(cur))/T); explicit bounds 1-d/T <= p <= T/(T+d) giving "
                 "p -> 0 (T -> 0+) and p -> 1 (T -> inf) as order statements, monotone in T; stack frame (two singleton "
-                "populations -> survivor, rest untouched, 0/1 draws); Err/panic cases; n coolings give T*alpha^n; the number "
+                "populations -> survivor, rest untouched, 0/1 draws); Err/panic cases; n coolings give T*alpha^n; cooling as a "
+                "component inside programs (model SaCool: Iterations counters of the open scopes, several f64 cells, Block / Loop / Scope): "
+                "one execution multiplies its lens target exactly once on EVERY state and touches nothing else (cooling_execution_exact), "
+                "absent target = Err (cooling_absent_target), every program run changes each cell exactly by the product of the logged "
+                "executions (cooling_program_effect), k executions under an unchanged counter give v*alpha^k (cooling_repeated_same_iteration), "
+                "the counters are irrelevant for a block of coolings (cooling_ignores_iterations), a loop over a block of several coolings "
+                "applies every one in every pass (cooling_loop_power); +inf candidate never / +inf current always replaced "
+                "(accept_inf_candidate, carrier Ext F); the number "
                 "of 64-bit generator words that accept is ceil(p*2^53)*2^11 (probability). ExpSpec is instantiated with "
                 "Real.exp. The model is tied to /repo by running the real components on the grid with scripted draws "
-                "around the decision threshold (K exact), seeded frequencies and template runs (O)."),
+                "around the decision threshold (K exact), seeded frequencies, cooling programs (K bit-exact, O per execution) and template runs (O)."),
     level_note=("Trusted: Lean kernel; libm exp; rand's word->f64 mapping; harness + driver. Floating-point rounding of "
                 "(cur-cand)/T and exp is not modelled in the theorems (partial: rounding); the compiled model uses the same "
                 "IEEE operations as the code. Equal +inf objective values (p = exp(inf - inf) = NaN) are accepted by the `<=` "
                 "short-circuit (fixed in /repo ca95ba5; theorem accept_equal_inf on the IEEE-like carrier Ext F; the +inf/+inf "
-                "cases are generated on every run). T <= 0 is outside the quantifier."),
+                "cases are generated on every run). T <= 0 is outside the quantifier. The number of generator words consumed is compared "
+                "only where the decision can depend on the draw: for a candidate that is not worse, or p = 0 / p >= 1 / NaN after rounding, "
+                "both 0 and 1 draws are accepted as legal witnesses (the property does not speak about the draw count). In the cooling "
+                "programs the f64 cells live in the root scope and `setIter` stands for any component that re-inserts Iterations; loop "
+                "termination of the model is by step budget (cooling_loop_power is a statement about loop runs that end ok, satisfiable by "
+                "example; cooling_program_effect holds for every outcome; cooling_repeated_same_iteration proves termination itself). Acceptance `init` "
+                "(Temperature := t_0) and the template order are observed in the runs only, not modelled."),
 )
